@@ -290,8 +290,13 @@ func c08Exprs(tier string) []*T {
 		}
 	}
 	for _, b := range c08Binary {
+		partners := c08Partners
+		if strings.HasPrefix(b, "*") {
+			// a literal map that names keys the hand-written documents reach only through a merge key
+			partners = append(append([]string{}, c08Partners...), `{"p": 5, "k": "w", "q": [9]}`)
+		}
 		for _, l := range leaves {
-			for _, p := range c08Partners {
+			for _, p := range partners {
 				out = append(out, &T{Tmpl: "(%s) " + b + " (%s)", Kids: []*T{l, {Tmpl: p}}})
 				out = append(out, &T{Tmpl: "(%s) " + b + " (%s)", Kids: []*T{{Tmpl: p}, l}})
 			}
